@@ -30,3 +30,11 @@ Print Assumptions C14_consume_confirmed_tag.
 Example C14_nonvacuous : c14_ok ((1%nat, [{| st_chan := 1%nat; st_op := (AConsume ([97]%N)); st_script := [[(1%nat, {| f_name := NConsumeOk; f_num := (0)%Z; f_str := ([97]%N) |})]] |}; {| st_chan := 1%nat; st_op := (AConsume ([98]%N)); st_script := [[(1%nat, {| f_name := NConsumeOk; f_num := (0)%Z; f_str := ([98]%N) |})]] |}; {| st_chan := 1%nat; st_op := (AConsume ([99]%N)); st_script := [[(1%nat, {| f_name := NConsumeOk; f_num := (0)%Z; f_str := ([99]%N) |})]] |}; {| st_chan := 1%nat; st_op := AStop; st_script := [[(1%nat, {| f_name := NCancelOk; f_num := (0)%Z; f_str := ([97]%N) |})]; [(1%nat, {| f_name := NCancelOk; f_num := (0)%Z; f_str := ([98]%N) |})]; [(1%nat, {| f_name := NCancelOk; f_num := (0)%Z; f_str := ([99]%N) |})]] |}]))
   (chan_model ((1%nat, [{| st_chan := 1%nat; st_op := (AConsume ([97]%N)); st_script := [[(1%nat, {| f_name := NConsumeOk; f_num := (0)%Z; f_str := ([97]%N) |})]] |}; {| st_chan := 1%nat; st_op := (AConsume ([98]%N)); st_script := [[(1%nat, {| f_name := NConsumeOk; f_num := (0)%Z; f_str := ([98]%N) |})]] |}; {| st_chan := 1%nat; st_op := (AConsume ([99]%N)); st_script := [[(1%nat, {| f_name := NConsumeOk; f_num := (0)%Z; f_str := ([99]%N) |})]] |}; {| st_chan := 1%nat; st_op := AStop; st_script := [[(1%nat, {| f_name := NCancelOk; f_num := (0)%Z; f_str := ([97]%N) |})]; [(1%nat, {| f_name := NCancelOk; f_num := (0)%Z; f_str := ([98]%N) |})]; [(1%nat, {| f_name := NCancelOk; f_num := (0)%Z; f_str := ([99]%N) |})]] |}]))) = true.
 Proof. vm_compute. reflexivity. Qed.
+
+(* ---------- consumers added / cancelled from several threads ---------- *)
+From AV Require Import Model.Src Gen.GenSrc Model.SrcShape.
+(* read off the source on every run: a tag enters and leaves the channel's list by one
+   in-place list operation; the list object is replaced only when all tags are dropped *)
+Theorem C14_source_tags_in_place : tags_shape_ok = true.
+Proof. vm_compute. reflexivity. Qed.
+Print Assumptions C14_source_tags_in_place.
